@@ -301,30 +301,21 @@ impl InnerField {
             };
         }
 
-        // check boundary
-        if len >= 4 && payload.buf[0] == b'\r' {
-            let b_len = if payload.buf.starts_with(b"\r\n") && &payload.buf[2..4] == b"--" {
-                Some(4)
-            } else if &payload.buf[1..3] == b"--" {
-                Some(3)
-            } else {
-                None
-            };
+        // check boundary; a delimiter starts with CRLF (RFC 2046 §5.1.1), a bare CR is content
+        if payload.buf.starts_with(b"\r\n--") {
+            let b_size = boundary.len() + 4;
 
-            if let Some(b_len) = b_len {
-                let b_size = boundary.len() + b_len;
-                if len < b_size {
-                    // not enough data to tell whether this is the boundary; if the payload has
-                    // ended it never will be, so the field (and the stream) is truncated
-                    return if payload.eof {
-                        Poll::Ready(Some(Err(Error::Incomplete)))
-                    } else {
-                        Poll::Pending
-                    };
-                } else if &payload.buf[b_len..b_size] == boundary.as_bytes() {
-                    // found boundary
-                    return Poll::Ready(None);
-                }
+            if len < b_size {
+                // not enough data to tell whether this is the boundary; if the payload has
+                // ended it never will be, so the field (and the stream) is truncated
+                return if payload.eof {
+                    Poll::Ready(Some(Err(Error::Incomplete)))
+                } else {
+                    Poll::Pending
+                };
+            } else if &payload.buf[4..b_size] == boundary.as_bytes() {
+                // found boundary
+                return Poll::Ready(None);
             }
         }
 
@@ -344,11 +335,7 @@ impl InnerField {
                     }
                 } else {
                     // check boundary
-                    if (&payload.buf[cur..cur + 2] == b"\r\n"
-                        && &payload.buf[cur + 2..cur + 4] == b"--")
-                        || (&payload.buf[cur..=cur] == b"\r"
-                            && &payload.buf[cur + 1..cur + 3] == b"--")
-                    {
+                    if &payload.buf[cur..cur + 4] == b"\r\n--" {
                         if cur != 0 {
                             // return buffer
                             Poll::Ready(Some(Ok(payload.buf.split_to(cur).freeze())))
